@@ -102,6 +102,7 @@ def run_seq_property(pid, tier, seed, extra_cases=None, level="proof", ncases=No
             cases += extreme_cases(seed, n, orders)
         else:
             cases += gen.gen_seq_cases(seed, n, shadow.TYPE_NAMES, orders)
+            cases += gen.gen_growshrink_cases(seed, 24 if tier == "quick" else 240, shadow.TYPE_NAMES)
         if extra_cases:
             cases += extra_cases
         byid = {c["id"]: c for c in cases}
@@ -179,6 +180,11 @@ def run_seq_property(pid, tier, seed, extra_cases=None, level="proof", ncases=No
                 common.violation(pid, dict(kind="seq", correspondence="in-Coq (vm_compute) evaluation of the model vs the implementation's observations",
                                            mismatch=xmism, error=xerr), found_input=False)
                 viol_count = 1
+        gocov = None
+        if pid == "C01":
+            cp = os.path.join(tmp, "cov.cases")
+            gen.write_cases(cases, cp)
+            gocov = shadow.coverage_of(tmp, vh, "seq", cp)
         # evidence
         nops = sum(len(c["ops"]) for c in cases)
         seen, nontrivial = set(), 0
@@ -209,7 +215,7 @@ def run_seq_property(pid, tier, seed, extra_cases=None, level="proof", ncases=No
             correspondence_mismatches=len(mismatches), monitor_violations=len(mon_viol), known_finding_hits=len(known_hits),
             distribution=dict(ops_by_kind=dist_ops, cases_by_type=by_type, cases_by_order=by_order, node_splits_seen=tot_splits, node_merges_seen=tot_merges),
             samples=[dict(type=sample["type"], order=sample["order"], keys=sample["keys"][:8], ops=sample["ops"][:25])],
-            repo_fingerprint=common.repo_fingerprint(), in_coq_crosscheck=xc)
+            repo_fingerprint=common.repo_fingerprint(), in_coq_crosscheck=xc, go_statement_coverage=gocov)
         if note:
             coverage["explanation"] = note
         lvl = level if (len(done) == len(names) and names) else "other"
